@@ -10,7 +10,7 @@ use alloc::string::ToString;
 use alloc::collections::btree_map::BTreeMap;
 
 use chrono::Utc;
-use chrono::{NaiveDate, Datelike};
+use chrono::{NaiveDate, Datelike, Duration};
 use chrono::Timelike;
 
 use crate::config::SmartCalcConfig;
@@ -64,12 +64,17 @@ pub fn at_date(config: &SmartCalcConfig, _: &Tokinizer, fields: &BTreeMap<String
             _ => return Err("Date information not valid".to_string())
         };
         
-        //todo: convert timezone informations
-        let (time, _) = match get_number_or_time(config, "time", fields) {
+        let (time, time_tz) = match get_number_or_time(config, "time", fields) {
             Some(number) => number,
             _ => return Err("Date information not valid".to_string())
         };
-        return Ok(TokenType::DateTime(date.and_hms(time.hour(), time.minute(), time.second()), date_tz));
+
+        /* The time is kept in UTC; its wall clock belongs to the given day in the zone of the time, whichever day its UTC reading falls on */
+        let wall_clock = (time.time().num_seconds_from_midnight() as i64 + time_tz.offset as i64 * 60).rem_euclid(86_400);
+        return match date.and_hms(0, 0, 0).checked_add_signed(Duration::seconds(wall_clock - time_tz.offset as i64 * 60)) {
+            Some(date_time) => Ok(TokenType::DateTime(date_time, date_tz)),
+            None => Err("Date information not valid".to_string())
+        };
     }
     Err("Date type not valid".to_string())
 }
